@@ -323,7 +323,7 @@ def thresholds(tier):
   n = len(configs(tier))
   t = {"configs_explored": n, "exhaustive_sets_complete": n - 5, "cycles_judged": 30000, "messages_delivered": 8000,
        "count_checks": 10000, "resets_midrun": 50, "pipe_enq_when_full": 200, "bypass_deq_when_empty": 200,
-       "mixed_system_runs": 100, "mixed_messages_delivered": 1000, "peek_checks": 1000, "adapter_runs": 100, "adapter_zero_messages_accepted": 500, "split_system_runs": 100, "queue_chain_runs": 100, "chain_messages_delivered": 1000}
+       "mixed_system_runs": 100, "mixed_messages_delivered": 1000, "peek_checks": 1000, "adapter_runs": 100, "adapter_zero_messages_accepted": 500, "split_system_runs": 100, "queue_chain_runs": 100, "chain_messages_delivered": 1000, "fl_producer_runs": 100}
   if tier == "thorough":
     t.update({"cycles_judged": 800000, "messages_delivered": 200000})
   return t
@@ -597,6 +597,75 @@ def run_split(sh, case):
     G.unload(mod)
 
 
+FLPROD_SRC = """
+from pymtl3 import *
+from pymtl3.stdlib.ifcs import GetIfcRTL, SendIfcFL, SendIfcRTL
+from pymtl3.stdlib.queues import NormalQueueRTL, PipeQueueRTL, BypassQueueRTL
+@bitstruct
+class FPkt:
+  seq: Bits8
+  pay: Bits8
+class ProducerFL(Component):
+  # a functional-level producer that re-fills ONE packet object for every message it sends (blocking send)
+  def construct(s, nmsg, gaps):
+    s.send = SendIfcFL(); s.pkt = FPkt(); s.n = 0; s.sent = []; s.cyc = 0
+    @update_once
+    def up_produce():
+      s.cyc += 1
+      if s.reset or gaps[s.cyc % len(gaps)]: return
+      if s.n < nmsg:
+        s.n += 1
+        s.pkt.seq = Bits8(s.n & 255); s.pkt.pay = Bits8((3 * s.n) & 255)
+        s.sent.append((s.n & 255, (3 * s.n) & 255))
+        s.send(s.pkt)
+class FLBehindRTL(Component):
+  def construct(s, nmsg, gaps):
+    s.send = SendIfcRTL(FPkt); s.p = ProducerFL(nmsg, gaps)
+    connect(s.p.send, s.send)          # inserts the library's FL -> RTL adapter
+class ConsumerRTL(Component):
+  def construct(s, stall):
+    s.get = GetIfcRTL(FPkt); s.cyc = Wire(Bits8); s.got = []
+    @update_ff
+    def up_cnt():
+      s.cyc <<= s.cyc + 1
+      if s.get.en: s.got.append((int(s.get.ret.seq), int(s.get.ret.pay)))
+    @update
+    def up_en():
+      s.get.en @= s.get.rdy & (s.cyc > stall)
+class FLTop(Component):
+  def construct(s, Q, n, nmsg, gaps, stall):
+    s.w = FLBehindRTL(nmsg, gaps); s.q = Q(FPkt, n); s.c = ConsumerRTL(stall)
+    connect(s.w.send, s.q.enq); connect(s.q.deq, s.c.get)
+"""
+
+
+def run_flprod(sh, case):
+  """an FL producer (blocking send, ONE packet object re-filled per message) -> the library's FL->RTL adapter -> an RTL queue -> a
+  consumer that starts late: the packets delivered are the packets sent, in order"""
+  from pymtl3 import DefaultPassGroup
+  from vlib import specgen as G
+  rng = sh.rng("flprod", case)
+  mod = G.load_source(FLPROD_SRC, "c17fl")
+  try:
+    kind = rng.choice(["Normal", "Pipe", "Bypass"]); n = rng.randrange(1, 4); nmsg = rng.randrange(4, 12)
+    gaps = [rng.random() < rng.choice([0.0, 0.3]) for _ in range(rng.randrange(2, 7))]
+    if all(gaps): gaps[0] = False
+    stall = rng.randrange(0, 16)
+    top = mod.FLTop(getattr(mod, kind + "QueueRTL"), n, nmsg, gaps, stall)
+    top.elaborate(); top.apply(DefaultPassGroup()); top.sim_reset()
+    for _ in range(80): top.sim_tick()
+    sent, got = list(top.w.p.sent), list(top.c.got)
+    sh.count("fl_producer_runs"); sh.count("evaluations"); sh.fp("flprod", kind, n, nmsg, stall)
+    ctx = {"queue": f"{kind}QueueRTL({n})", "consumer_starts_after": stall, "sent": sent[:14], "delivered": got[:14]}
+    if got != sent[:len(got)]:
+      sh.violation("system-delivers-other-messages-than-were-accepted", dict(ctx, note="the FL producer re-fills one packet object"), case=("flprod", case)); return
+    if len(got) < min(3, nmsg): sh.inconclusive("fl-producer-system-made-no-progress")
+  except Exception:
+    sh.violation("mixed-system-raised", {"shape": "flprod", "error": traceback.format_exc()[-600:]}, case=("flprod", case))
+  finally:
+    G.unload(mod)
+
+
 CHAIN_SRC = """
 from pymtl3 import *
 from pymtl3.stdlib.queues import BypassQueueRTL, DeqIfcRTL, EnqIfcRTL, NormalQueueRTL, PipeQueueRTL
@@ -760,6 +829,7 @@ def run_shard(sh):
     run_adapters(sh, cfg["cfg_idx"] * 100 + case)
     run_split(sh, cfg["cfg_idx"] * 100 + case)
     run_chain(sh, cfg["cfg_idx"] * 100 + case)
+    run_flprod(sh, cfg["cfg_idx"] * 100 + case)
   for case in range(3 if sh.tier == "quick" else 30):
     run_mixed(sh, cfg["cfg_idx"] * 100 + case)
   rng = sh.rng("cfg", cfg["cfg_idx"])
